@@ -1069,7 +1069,13 @@ class StringTensor(TensorBase, _protocols.TensorProtocol):  # pylint: disable=to
         assert isinstance(self._raw, Sequence), (
             f"Bug: Expected a sequence, got {type(self._raw)}"
         )
-        return np.array(self._raw, dtype=dtype).reshape(self.shape.numpy())
+        if dtype is not None:
+            return np.array(self._raw, dtype=dtype).reshape(self.shape.numpy())
+        # numpy's fixed-width bytes dtype drops trailing NUL bytes (b"a\x00" -> b"a");
+        # an object array keeps every element exactly as stored in string_data
+        array = np.empty(len(self._raw), dtype=object)
+        array[:] = list(self._raw)
+        return array.reshape(self.shape.numpy())
 
     def __dlpack__(self, *, stream: Any = None) -> Any:
         del stream  # unused
